@@ -798,6 +798,23 @@ def main():
         else:
             ck.note("known finding %s did not reproduce in %d attempts (scheduling dependent; theorem capacity_race_witness shows the schedule)" % (f["id"], rep + 1))
 
+    # ... repaired (the capacity test and the addition it admits are one step under Location.admission): the former witness, with its
+    # spin barrier, many times, both states, more adders than free slots -- the location never holds more than MaxFacts
+    if RACE["id"] in fixed_finding_ids("C20"):
+        worst = None
+        for rep in range(40 if not ck.thorough else 400):
+            w = dict(RACE["witness"], state=("linear" if rep % 2 else "indexed"), adders=8 + 4 * (rep % 3), prefill=9 - (rep % 2))
+            r = run_cases(drv, [w])[0]
+            ck.count(dict(w, rep=rep))
+            if not isinstance(r, dict) or "size" not in r:
+                ck.violation("the capacity scenario could not be run: %s" % canon(r)[:200], {"case": w, "impl": r}, tag="capacity-race"); break
+            if r.get("size", 0) > w["max"]:
+                worst = (w, r, rep + 1); break
+        dist["capacity_race_reps"] = rep + 1
+        if worst:
+            ck.violation("%d facts with MaxFacts=%d after %d concurrent AddFact calls on a location holding %d (attempt %d, %s state): the capacity test and the addition are not one step" % (
+                worst[1]["size"], worst[0]["max"], worst[0]["adders"], worst[0]["prefill"], worst[2], worst[0]["state"]), {"case": worst[0], "impl": worst[1]}, tag="capacity-race")
+
     for cls, c in known_hits.items():
         log("note: generated cases in known class %s (impl = model ≠ spec), e.g. %s" % (cls, canon(c)[:160]))
 
